@@ -7,10 +7,13 @@ Driver for stream `flags` (C16): one op per line, one observation per line.
         groups = `-` | id(,id)*
   sysflags <name>                            -> <flags> <price> <activeFrom> | absent        (Generated.Interops)
   natflags <contract> <method> <nparams> <hf>-> <flags> <safe 0/1> <deferrable 0/1> | absent  (Generated.NativeMethods, active at hf)
-  sys <name> <F> <observed effects>          -> denied | passed within | passed beyond | unclassified
+  sys <name> <F> <observed effects>          -> (denied | passed) (within | beyond) | unclassified
   nat <contract> <method> <nparams> <hf> <F> <observed effects>   -> same
         F = flags (0..15) of the context executing the primitive; observed effects ⊆ "wnc" or `-`;
         `within`: the observed effects are among those of the hand-written expectation table
+  sysseq <F> <observed effects> <name>+      -> (denied | passed) (within | beyond) | unclassified
+        the named system calls executed in this order by one context with flags F; `denied` if one of them is
+        refused; the observed effects must be among those of the calls before the refused one
   callt <F>                                  -> denied | passed
   contract <id> <groups> <perms>             -> ok         (declares a deployed contract: hash = id, its manifest)
   chain <F0> <hop>*                          -> halt <flags of each entered context, comma separated>
@@ -56,8 +59,17 @@ def primVerdict (p : Option Prim) (f : Nat) (obs : String) : String :=
   match p with
   | none => "unclassified"
   | some p =>
-    if !(CallFlags.ofNat f).has p.req then "denied"
+    if !(CallFlags.ofNat f).has p.req then (if effWithin (parseEffects obs) ro then "denied within" else "denied beyond")
     else if effWithin (parseEffects obs) p.eff then "passed within" else "passed beyond"
+
+/-- a sequence of system calls run by one context: (refused?, union of the effects of the executed ones). -/
+def seqVerdict (f : CallFlags) : List Prim → Bool × Effects
+  | [] => (false, ro)
+  | p :: ps =>
+    if !f.has p.req then (true, ro)
+    else
+      let (d, e) := seqVerdict f ps
+      (d, ⟨p.eff.write || e.write, p.eff.notify || e.notify, p.eff.call || e.call⟩)
 
 def findNative (contract method : String) (np hf : Nat) : Option NativeMethods.Entry :=
   NativeMethods.table.find? fun m => m.contract == contract && m.name == method && m.nparams == np && activeAt hf m
@@ -132,6 +144,13 @@ def step' (st : St) (ws : List String) : St × String :=
       | some m => (st, primVerdict (nativePrim hf m) f obs)
       | none => (st, "absent")
     | _, _, _ => (st, "bad-op")
+  | "sysseq" :: f :: obs :: names =>
+    match f.toNat?, names.mapM syscallPrim with
+    | some f, some ps =>
+      let (d, e) := seqVerdict (CallFlags.ofNat f) ps
+      (st, (if d then "denied " else "passed ") ++ (if effWithin (parseEffects obs) e then "within" else "beyond"))
+    | some _, none => (st, "unclassified")
+    | none, _ => (st, "bad-op")
   | ["callt", f] =>
     match f.toNat? with
     | some f => (st, if (CallFlags.ofNat f).has callTPrim.req then "passed" else "denied")
